@@ -841,6 +841,31 @@ func (eng *Engine) execStd(callee *ssa.Function, in ssa.CallInstruction, args []
 	}
 	if pkgPath == "slices" && (len(args) == 2 || len(args) == 3) {
 		switch base {
+		case "Grow":
+			// same elements, more room: the grown slice stands for the argument's element cell; growing a nil
+			// slice gives a slice without elements (nil when the count is zero)
+			a := args[0]
+			if a.K == KSlice && a.Obj != 0 {
+				r := a
+				r.Sym = 0
+				r.Nil = maybeNil
+				if env.nilnessOf(a) == nonNil {
+					r.Nil = nonNil
+				}
+				set(env, r)
+				return []*Env{env}
+			}
+			if a.K == KSlice && env.nilnessOf(a) == isNil {
+				if sl, ok := in.Common().Args[0].Type().Underlying().(*types.Slice); ok {
+					oid := eng.internObj(eng.instrKey(in))
+					if self, isVal := in.(ssa.Value); isVal {
+						eng.resetObj(env, oid, self)
+					}
+					env.objs[oid] = &objInfo{Type: sl.Elem(), Local: true, ElemCell: true, Summary: true, Desc: "grown nil slice"}
+					set(env, AV{K: KSlice, Nil: maybeNil, Obj: oid, Path: "[]"})
+					return []*Env{env}
+				}
+			}
 		case "ContainsFunc", "IndexFunc":
 			// the callback is applied to elements of the slice; it cannot modify call-local state that matters here.
 			// A nil slice has no elements: the callback is never called.
